@@ -338,7 +338,9 @@ def _suite_job(job):
             d = proto.match(mv, iv, c.tol)
             if d is not None:
                 if len(disagreements) < 20:
-                    disagreements.append({"suite": suite, "op": c.op, "args": proto.jsonable(c.args),
+                    disagreements.append({"suite": suite, "locator": {"suite": suite, "tier": tier, "seed": seed,
+                                                                      "shard": shard, "nshards": nshards, "index": i},
+                                          "op": c.op, "args": proto.jsonable(c.args),
                                           "info": proto.jsonable(c.info), "diff": d,
                                           "model": proto.jsonable(mv), "impl": proto.jsonable(iv)})
                 else:
@@ -380,6 +382,24 @@ def _oracle_job(job):
                 "distinct": distinct, "wall": time.time() - t0, "error": None}
     except Exception:  # noqa: BLE001
         return {"site": site, "shard": shard, "error": traceback.format_exc()}
+
+
+def replay_case(mod, loc):
+    """Regenerate one correspondence case from its locator and re-run both sides -> None | difference"""
+    gen = mod.SUITES[loc["suite"]]
+    rng = random.Random(derive_seed(loc["seed"], mod.PID, loc["suite"], loc["shard"]))
+    for i, c in enumerate(gen(rng, loc["tier"], loc["shard"], loc["nshards"])):
+        if i == loc["index"]:
+            out = run_driver(["0 %s %s\n" % (c.op, " ".join(proto.enc(a) for a in c.args))])
+            _, mv = proto.dec_line(out[0])
+            if c.post is not None and not isinstance(mv, proto.Err):
+                mv = c.post(mv)
+            iv = impl_result(c.call)
+            d = proto.match(mv, iv, c.tol)
+            if d is None:
+                return None
+            return "%s %s: model (the executable definition) and code disagree: %s" % (loc["suite"], c.op, d)
+    return "case not regenerated (generator changed?)"
 
 
 def nshards_for(tier):
@@ -481,6 +501,12 @@ def run_property(modname, tier, seed):
                     what = mod.CHECKERS[site](inp)
                 if what is not None:
                     failures.append({"site": site, "input": proto.jsonable(inp), "what": what})
+    if getattr(mod, "CORRESPONDENCE_IS_PROPERTY", False):
+        # the property *is* "code = executable definition": a disagreement is itself the failing input
+        for d in disagreements:
+            failures.append({"site": "correspondence", "input": {"locator": d["locator"], "op": d["op"], "args": d["args"],
+                                                                 "model": d["model"], "impl": d["impl"]},
+                             "what": "%s %s: code differs from the executable definition: %s" % (d["suite"], d["op"], d["diff"])})
     log("%s oracle: %d inputs, %d failures (boost %d)" % (pid, sum(r["n"] for r in orc_results), len(failures), boost))
 
     # known findings: replay witnesses; suppress only failures inside a listed site+region
@@ -627,7 +653,10 @@ def replay(path):
     mod = importlib.import_module("props." + pid.lower())
     ensure_repo_import()
     if v.get("kind") == "failing-input":
-        what = mod.CHECKERS[v["site"]](v["input"])
+        if v["site"] == "correspondence":
+            what = replay_case(mod, v["input"]["locator"])
+        else:
+            what = mod.CHECKERS[v["site"]](v["input"])
         if what is None:
             print("replay: property %s holds on the recorded input at %s" % (pid, v["site"]))
             return 0
